@@ -447,6 +447,48 @@ pub fn query<A: HC>(q: &str, t: &mut Toks) -> R<String> {
             let b = eval_v::<A>(&parse_v(t)?)?;
             ord_str(A::seq_cmp(&a, &b).ok_or(Fail::Unsup)?).to_string()
         }
+        "serde" => {
+            // bincode and JSON round trips of an owned sequence + the JSON field view of bitvec's format
+            let v = eval_v::<A>(&parse_v(t)?)?;
+            let bin = bincode::serialize(&v).map_err(|e| Fail::BadOp(e.to_string()))?;
+            let v2: Seq<A> = bincode::deserialize(&bin).map_err(|e| Fail::BadOp(e.to_string()))?;
+            let js = serde_json::to_string(&v).map_err(|e| Fail::BadOp(e.to_string()))?;
+            let v3: Seq<A> = serde_json::from_str(&js).map_err(|e| Fail::BadOp(e.to_string()))?;
+            let same = |x: &Seq<A>| -> bool {
+                *x == v && x.len() == v.len() && content(x) == content(&v) && hash_events(x) == hash_events(&v) && display_hex(x) == display_hex(&v)
+            };
+            let val: serde_json::Value = serde_json::from_str(&js).map_err(|e| Fail::BadOp(e.to_string()))?;
+            let bv = &val["bv"];
+            let bits = bv["bits"].as_u64().unwrap_or(u64::MAX) as usize;
+            let head = bv["head"]["index"].as_u64().unwrap_or(u64::MAX) as usize;
+            let mut words: Vec<String> = vec![];
+            if let Some(data) = bv["data"].as_array() {
+                let total = head + bits;
+                let nwords = (total + 63) / 64;
+                for (i, w) in data.iter().enumerate().take(nwords) {
+                    let w = w.as_u64().unwrap_or(0) as usize;
+                    let lo = if i == 0 { head } else { 0 };
+                    let hi = if (i + 1) * 64 <= total { 64 } else { total - i * 64 };
+                    let mut m = if hi == 64 { w } else { w & ((1usize << hi) - 1) };
+                    m = (m >> lo) << lo;
+                    words.push(m.to_string());
+                }
+                if data.len() < nwords {
+                    words.push("short".into());
+                }
+            }
+            format!(
+                "{} {} {} {} {} {} {} {}",
+                show(&v),
+                same(&v2),
+                same(&v3),
+                bv["order"].as_str().unwrap_or("?"),
+                bv["head"]["width"],
+                head,
+                bits,
+                if words.is_empty() { "-".to_string() } else { words.join(",") }
+            )
+        }
         "mapget" => {
             // HashMap<Seq<A>, _>::get(&SeqSlice<A>) through Borrow + Hash/Eq agreement
             let n = t.num()?;
